@@ -217,6 +217,14 @@ class G:
                 v = r.choice(cands)
             self.note("store")
             return ("store", v, self.expr(v.ttype, d))
+        if c < 0.235 and not self.operand:
+            # a variable that has been read before is stored again and read back at once (an adjacent store/load pair whose
+            # slot has OTHER loads elsewhere: the slot optimiser must leave it alone)
+            cands = [v for v in self.visible() if v.uid in self.assigned and v.uid not in self.counters and v.ttype == U]
+            if cands:
+                v = r.choice(cands)
+                self.note("restore-reload")
+                return ("seq", [("op", "PopU", [("load", v)]), ("store", v, self.expr(U, d - 1)), ("op", "PopU", [("load", v)])])
         if c < 0.3:
             ty = r.choice([U, B])
             self.note("pop")
